@@ -37,6 +37,12 @@ def gen(t):
     a('w_mulassign', '%s& o, const %s& p, const %s& q' % (Q, Q, Q), '%s x = p; x *= q; o = x;' % Q)
     a('w_div', '%s& o, const %s& p, const %s& q' % (Q, Q, Q), 'o = p / q;')
     a('w_divassign', '%s& o, const %s& p, const %s& q' % (Q, Q, Q), '%s x = p; x /= q; o = x;' % Q)
+    a('w_Mq', '%s& o, const %s& m, const %s& q' % (M3, M3, Q), 'o = m * q;')
+    a('w_qM', '%s& o, const %s& q, const %s& m' % (M3, Q, M3), 'o = q * m;')
+    a('w_eip', '%s& o, const %s& p, const %s& q' % (E, Q, Q), 'o = p.euclideanInnerProduct(q);')
+    a('w_dotop', '%s& o, const %s& p, const %s& q' % (E, Q, Q), 'o = p ^ q;')
+    a('w_identity', '%s& o' % Q, 'o = %s::identity();' % Q)
+    a('w_default', '%s& o' % Q, 'o = %s();' % Q)
     a('w_inverse', '%s& o, const %s& q' % (Q, Q), 'o = q.inverse();')
     a('w_invert', '%s& q' % Q, 'q.invert();')
     a('w_conj', '%s& o, const %s& q' % (Q, Q), 'o = ~q;')
@@ -295,6 +301,31 @@ def main(rep, ws, tier):
                         return ('%s (component %s): found %s, expected %s' % (what, 'rxyz'[k], P.show_rat(got[k], ctx)[:160], P.show_rat(want[k], ctx)[:160]), None, fn_where(S_(w).fn))
             return (None, 'p *= q = p*q; p / q = p /= q = p * q.inverse() (rational identities, general quaternions)', fn_where(S_('w_mulassign').fn))
         ob('compound product forms', 'R10.hom', compound)
+
+        def mixed():
+            # M * q = M * q.toMatrix33(), q * M = q.toMatrix33() * M; the 4-D inner product in both spellings; identity() = Quat() = (1,0,0,0)
+            ctx = P.Ctx()
+            m3 = outs(S_('w_m33'), 'a0', 9)
+            for w, qb, mb, left in (('w_Mq', 'a2', 'a1', True), ('w_qM', 'a1', 'a2', False)):
+                got = [ctx.rat(x) for x in outs(S_(w), 'a0', 9)]
+                ren = dict((agg.slot_in('a1', i, t), agg.slot_in(qb, i, t)) for i in range(4))
+                Mq = [[ctx.rat(T.subst(m3[i * 3 + j], ren)) for j in range(3)] for i in range(3)]
+                Mm = [[(ctx.reduce(P.patom(ctx.key(agg.slot_in(mb, i * 3 + j, t)))), ONE) for j in range(3)] for i in range(3)]
+                A_, B_ = (Mm, Mq) if left else (Mq, Mm)
+                for i in range(3):
+                    for j in range(3):
+                        want = sum_r(ctx, [ctx.rmul(A_[i][k], B_[k][j]) for k in range(3)])
+                        if not ctx.requal(got[i * 3 + j], want): return ('%s: entry [%d][%d] is not that of %s' % ('M * q' if left else 'q * M', i, j, 'M * q.toMatrix33()' if left else 'q.toMatrix33() * M'), None, fn_where(S_(w).fn))
+            p_ = [agg.slot_in('a1', i, t) for i in range(4)]; q_ = [agg.slot_in('a2', i, t) for i in range(4)]
+            want = sum_r(ctx, [ctx.rmul((ctx.reduce(P.patom(ctx.key(p_[i]))), ONE), (ctx.reduce(P.patom(ctx.key(q_[i]))), ONE)) for i in range(4)])
+            for w in ('w_eip', 'w_dotop'):
+                if not ctx.requal(ctx.rat(S_(w).out('a0', 0, sz, lt)), want): return ('%s is not r1*r2 + v1.v2' % ('euclideanInnerProduct' if w == 'w_eip' else 'operator^'), None, fn_where(S_(w).fn))
+            for w in ('w_identity', 'w_default'):
+                o_ = outs(S_(w), 'a0', 4)
+                vals = [T.const_value(x) if x.op == 'const' else None for x in o_]
+                if vals != [1, 0, 0, 0]: return ('%s is %s, expected (1, 0, 0, 0)' % ('identity()' if w == 'w_identity' else 'Quat()', [T.show(x, 2) for x in o_]), None, fn_where(S_(w).fn))
+            return (None, 'M * q = M * toMatrix33(q), q * M = toMatrix33(q) * M; euclideanInnerProduct = operator^ = r1 r2 + v1.v2; identity() = Quat() = (1,0,0,0)', fn_where(S_('w_Mq').fn))
+        ob('matrix products, inner product, identity', 'R10.hom', mixed)
 
         def axis_angle():
             A, Bq = S_('w_qaa'), S_('w_maa')
